@@ -131,7 +131,7 @@ func checkC18(r *Run) {
 	r.Assume = []string{"URIs: every accepted string of the C14 space up to the stated length plus the C15 family", "target offset + span <= 65535 (16-bit addressing limit)"}
 	sig := []byte("a1:@;?&=[].")
 	L := r.pick(6, 7)
-	tgts := func(l int) []int { return []int{0, 1, 7, 255, 256, 65535 - l - 3} }
+	tgts := func(l int) []int { return []int{0, 1, 7, 255, 256, 65535 - l - 3, 65535 - l} }
 	light := false
 	run := func(c *enumCtx, s []byte) {
 		n := 0
@@ -191,6 +191,9 @@ func checkC18(r *Run) {
 			c.st.Nontrivial++
 			c.st.States++
 			c.st.Transitions += int64(n)
+			c.st.Outcomes["accepted-uri"]++
+		} else {
+			c.st.Outcomes["rejected-uri"]++
 		}
 	}
 	light = true
@@ -224,6 +227,6 @@ func init() {
 		return vs
 	}
 	register("C18", &checkDef{fn: checkC18,
-		rule:        "E4: every accepted URI of the bounded space x source offset {0,9,65535-len,65533-len} x target offsets {0,1,7,255,256,limit} x every span 0..len+3 through AdjustOffs, plus Long/Short/Flat/Truncate; oracle by construction (same bytes in the target buffer, absent stays absent, refusal leaves the structure intact); states = accepted URIs, transitions = relocations; non-trivial = accepted URI",
+		rule:        "E4: every accepted URI of the bounded space x source offset {0,9,65535-len,65533-len} x target offsets {0,1,7,255,256,65532-len,65535-len} x every span 0..len+3 through AdjustOffs, plus Long/Short/Flat/Truncate; oracle by construction (same bytes in the target buffer, absent stays absent, refusal leaves the structure intact); states = accepted URIs, transitions = relocations; non-trivial = accepted URI",
 		quickBudget: 120 * time.Second, thorBudget: 20 * time.Minute})
 }
